@@ -90,23 +90,28 @@ static double f_pow(double x, void * p) { return std::pow(x, *(int *)p); }
 static void check_tsimpr()
 {
   for (auto iv : {std::pair<double, double>{0, 1}, {-1, 2}, {0.25, 4.25}})
-    for (int n : {4, 8, 16, 100, 1000})
+    // requested steps that tile the interval into 4k sub-intervals, and steps that do not (the routine re-derives its
+    // own step from the rounded ratio; it refuses ratios whose half is odd): the result is the integral over [a,b] in
+    // every accepted case
+    for (double n : {4.0, 8.0, 16.0, 100.0, 1000.0, 5.0, 9.0, 17.0, 101.0, 8.5, 4.8, 12.3, 1000.7})
       for (int k = 0; k <= 4; k++) {
         double h = (iv.second - iv.first) / n;
         double r;
         g_eval++;
+        size_t nn = (size_t)(n + 0.25);
+        bool must_accept = ((nn / 2) % 2 == 0);
         try {
           r = bxdecay0::decay0_tsimpr(f_pow, iv.first, iv.second, h, &k);
         } catch (std::exception & e) {
-          V("tsimpr:exception", fmt("decay0_tsimpr([%g,%g], h=(b-a)/%d) throws: %s", iv.first, iv.second, n, e.what()));
+          if (must_accept) V("tsimpr:exception", fmt("decay0_tsimpr([%g,%g], h=(b-a)/%g) throws: %s", iv.first, iv.second, n, e.what()));
           continue;
         }
         long double ex = mono_int(k, iv.first, iv.second);
         double rel = (double)(fabsl(r - ex) / std::max((long double)1e-300, fabsl(ex)));
         if (k <= 3) {
           g_nontrivial++;
-          if (rel > 1e-12) V("tsimpr:exactness", fmt("decay0_tsimpr on [%g,%g] with %d steps: x^%d integrated with relative error %.3g", iv.first, iv.second, n, k, rel));
-        } else if (n == 4 && rel < 1e-12) V("tsimpr:control", "negative control failed: x^4 exact with 4 Simpson steps");
+          if (rel > 1e-12) V("tsimpr:exactness", fmt("decay0_tsimpr on [%g,%g] with h=(b-a)/%g: x^%d integrated with relative error %.3g", iv.first, iv.second, n, k, rel));
+        } else if (n == 4.0 && rel < 1e-12) V("tsimpr:control", "negative control failed: x^4 exact with 4 Simpson steps");
       }
 }
 
